@@ -20,4 +20,5 @@ INVARIANT MassFracsSumToOne
 INVARIANT ConversionsInverse
 PROPERTY ReadBack
 PROPERTY Locality
+POSTCONDITION CountReport
 CHECK_DEADLOCK FALSE
